@@ -279,6 +279,19 @@ func (s *Sched) Gate(point string) {
 		s.mu.Unlock()
 		return
 	}
+	switch point {
+	case "worker.suspend", "worker.resume", "remove.round", "handle.suspended", "stop.close":
+		// never park at a hand-shake gate with a short-section mutex locked
+		inst := g.Inst
+		s.mu.Unlock()
+		if inst != nil && inst.shortMutexHeld() {
+			s.mu.Lock()
+			s.GateHits["skipped(mutex held)."+point]++
+			s.mu.Unlock()
+			return
+		}
+		s.mu.Lock()
+	}
 	if g.gone() {
 		s.mu.Unlock()
 		raceOff()
